@@ -311,7 +311,12 @@ ApplyFn(e, vs) ==          \* e: elaborated fn node, vs: argument values (alread
                  IF ex.d # 1 \/ ex.n < 0 \/ ex.n > 4 THEN UNDEF ELSE RatPow(bs, ex.n)
       [] op = "round" ->     \* rounding ties have no backend-independent result
             IF SeqAnyU(vs) THEN UNDEF ELSE IF IsN(vs[1]) THEN NULL ELSE IF IsN(vs[2]) THEN UNDEF
-            ELSE IF e.a[1].ty = "int" THEN (IF vs[2] >= 0 THEN vs[1] ELSE UNDEF)
+            ELSE IF e.a[1].ty = "int"
+                 THEN (IF vs[2] >= 0 THEN vs[1]
+                       ELSE IF vs[2] < -3 THEN UNDEF
+                       ELSE LET p == CASE vs[2] = -1 -> 10 [] vs[2] = -2 -> 100 [] OTHER -> 1000      \* nearest multiple of 10^k, ties undefined
+                                r == vs[1] % p
+                            IN IF 2 * r = p THEN UNDEF ELSE IF 2 * r < p THEN vs[1] - r ELSE vs[1] - r + p)
             ELSE IF vs[2] # 0 THEN UNDEF
             ELSE LET r == vs[1] fl == RatFloor(r) twice == 2 * (r.n - fl * r.d) IN
                  IF twice = r.d THEN UNDEF ELSE RatOfInt(IF twice < r.d THEN fl ELSE fl + 1)
